@@ -153,6 +153,8 @@ def run(ctx):
     from rules import C01
     C01.sat_merge(ctx, facts)   # cross-shard histogram merge saturates like the in-shard sum
     malsec.multiply_impls(ctx, facts, "WHO-multiply")     # each context kind multiplies with its own protocol
+    from rules import C04
+    C04.linear_ops(ctx, facts, "LINEAR-share", "secret_sharing::replicated::semi_honest::additive_share::AdditiveShare", ("0", "1"), False, 15)   # local (linear) operations act on both components alike
     malsec.field_transport(ctx, facts, "FIELDS-block")    # the proof-carrying multiplication multiplies exactly what it records
     ctx.assume("the secure multiplication returns a sharing of the product of its operands (POLY decides this for the semi-honest protocol at the level of the share algebra); `+`, `-`, `!` on shares are the share-wise field operations")
     ctx.assume("share conversion, PRF evaluation, integer multiplication and aggregation are not decided")
